@@ -1162,6 +1162,10 @@ class QuicConnection:
         :param end_stream: If set to `True`, the FIN bit will be set.
         """
         stream = self._get_or_create_stream_for_send(stream_id)
+        if stream.sender.stopped_by_peer:
+            # the peer sent STOP_SENDING and the stream was reset; the
+            # application may not have seen the event yet, discard the data
+            return
         stream.sender.write(data, end_stream=end_stream)
 
     def stop_stream(self, stream_id: int, error_code: int) -> None:
@@ -2240,6 +2244,7 @@ class QuicConnection:
         # reset the stream
         stream = self._get_or_create_stream(frame_type, stream_id)
         stream.sender.reset(error_code=QuicErrorCode.NO_ERROR)
+        stream.sender.stopped_by_peer = True
 
         self._events.append(
             events.StopSendingReceived(error_code=error_code, stream_id=stream_id)
